@@ -20,10 +20,14 @@ Local Open Scope Z_scope.
 Definition range := list (Z * Z).
 
 (* vm_get_slice_range(range1_from=a, range1_to=b, range2_from=c, range2_to=d, &res_from,
-   &res_to, &oob): returns (res_from, res_to, oob).  res_from/res_to are always written, oob
-   is only ever set (callers clear it before the call). *)
+   &res_to, &oob): returns (res_from, res_to, oob).
+     if (range2_from < 0 || range2_to < 0) { *oob = 1; return; }     (fix bf51841)
+   in that case res_from/res_to are not written: every caller presets them to 0, which is what
+   the model returns.  Otherwise res_from/res_to are always written; oob is only ever set
+   (callers clear it before the call). *)
 Definition get_slice_range (a b c d : Z) : Z * Z * bool :=
-  if a <? b then
+  if (c <? 0) || (d <? 0) then (0, 0, true)
+  else if a <? b then
     let rf := s32 (a + c) in
     let rt := s32 (a + d) in
     if c <? d then (rf, rt, b <? rt)      (* C: res_to   > range1_to  =>  oob *)
